@@ -29,6 +29,9 @@ func init() {
 }
 
 var precGapPieces = 2
+
+// precMinusRuns[i] = number of minus signs written before operand i (when set)
+var precMinusRuns []int
 var precThorough = false
 
 var c10Prec = map[string]int{"or": 1, "and": 2, "=": 3, "!=": 3, "<": 4, "<=": 4, ">": 4, ">=": 4, "+": 5, "-": 5, "*": 6, "div": 6, "mod": 6, "|": 8}
@@ -44,10 +47,15 @@ func refShape(opnds int, ops []string, neg []bool) string {
 	pos := 0
 	var parseExpr func(minPrec int) string
 	operand := func() string {
-		// unary minus binds tighter than multiplicative and looser than union
+		// unary minus binds tighter than multiplicative and looser than union;
+		// a run of minus signs negates once if its length is odd (-(-x) = x)
 		if neg[pos] {
 			neg[pos] = false
+			idx := pos
 			inner := parseExpr(8)
+			if precMinusRuns != nil && precMinusRuns[idx]%2 == 0 {
+				return inner
+			}
 			return "(neg " + inner + ")"
 		}
 		s := strconv.Itoa(pos)
@@ -82,7 +90,13 @@ func precInst(ops []string, neg []bool, kinds []string) *vm.Instance {
 	wordOp := func(op string) bool { return op == "or" || op == "and" || op == "div" || op == "mod" }
 	for i, k := range kinds {
 		if neg[i] {
-			tpl = append(tpl, "-", gap(false))
+			runs := 1
+			if precMinusRuns != nil {
+				runs = precMinusRuns[i]
+			}
+			for k := 0; k < runs; k++ {
+				tpl = append(tpl, "-", gap(false))
+			}
 		}
 		tpl = append(tpl, k)
 		if i < len(ops) {
@@ -158,6 +172,18 @@ func buildC10(tier string, seed int64) *Family {
 		mk([]string{a, allOps[(k*5+3)%len(allOps)]}, []bool{false, true, false})
 		mk([]string{a, allOps[(k*3+1)%len(allOps)]}, []bool{true, false, true})
 	}
+	// runs of two and three minus signs
+	for k, a := range allOps {
+		for _, runs := range [][]int{{2, 0}, {0, 2}, {3, 0}, {0, 3}, {2, 2}, {1, 2}} {
+			if a == "|" && runs[1] > 0 {
+				continue
+			}
+			precMinusRuns = runs
+			mk([]string{a}, []bool{runs[0] > 0, runs[1] > 0})
+			precMinusRuns = nil
+		}
+		_ = k
+	}
 	// chains of length 3 (all in thorough, seeded in quick) and seeded chains of 4-5
 	if tier == "thorough" {
 		for _, a := range allOps {
@@ -192,6 +218,11 @@ func buildC10(tier string, seed int64) *Family {
 		{"* / N1", "child :: * / child :: N1"}, {"@ *", "attribute :: *"}, {"N1 / text ( )", "child :: N1 / child :: text ( )"}, {"N1 W1 / W2 N2", "N1 / N2"},
 		{"count ( // N1 )", "count ( / descendant-or-self :: node ( ) / child :: N1 )"}, {"N1 | @ N2", "child :: N1 | attribute :: N2"},
 		{".. // N1 / @ N2", "parent :: node ( ) / descendant-or-self :: node ( ) / child :: N1 / attribute :: N2"},
+		// "//" after a filter expression (parenthesised expression, function call) and after predicates
+		{"( N1 ) // N2", "( N1 ) / descendant-or-self :: node ( ) / N2"}, {"( N1 | N2 ) // N3", "( N1 | N2 ) / descendant-or-self :: node ( ) / N3"},
+		{"( / N1 ) // N2", "( / N1 ) / descendant-or-self :: node ( ) / child :: N2"}, {"( N1 ) [ 2 ] // N2", "( N1 ) [ 2 ] / descendant-or-self :: node ( ) / N2"},
+		{"reverse ( N1 ) // N2", "reverse ( N1 ) / descendant-or-self :: node ( ) / N2"}, {"N1 [ N2 ] // N3", "child :: N1 [ child :: N2 ] / descendant-or-self :: node ( ) / child :: N3"},
+		{"( N1 ) / N2", "( N1 ) / child :: N2"}, {"( N1 ) // @ N2", "( N1 ) / descendant-or-self :: node ( ) / attribute :: N2"}, {"( N1 ) // .", "( N1 ) / descendant-or-self :: node ( ) / self :: node ( )"},
 	}
 	for _, p := range ab {
 		insts = append(insts, &vm.Instance{ID: "abbrev: " + p[0] + "  ==  " + p[1], Harness: "H_prec",
@@ -212,7 +243,8 @@ func buildC10(tier string, seed int64) *Family {
 	for _, p := range [][2]string{{"a", "child::a"}, {"@a", "attribute::a"}, {".", "self::node()"}, {"..", "parent::node()"}, {"a//b", "a/descendant-or-self::node()/child::b"},
 		{"//a", "/descendant-or-self::node()/child::a"}, {".//a", "self::node()/descendant-or-self::node()/child::a"}, {"../@a", "parent::node()/attribute::a"},
 		{"a/b/..", "child::a/child::b/parent::node()"}, {"//a/@a", "/descendant-or-self::node()/child::a/attribute::a"}, {"*[@a]", "child::*[attribute::a]"},
-		{"a | @a", "child::a|attribute::a"}, {"a  /  b", "a/b"}, {" a [ 1 ] ", "a[1]"}, {"count( a )", "count(a)"}} {
+		{"a | @a", "child::a|attribute::a"}, {"(a)//b", "(a)/descendant-or-self::node()/child::b"}, {"(/a)//b", "(/a)/descendant-or-self::node()/child::b"},
+		{"(a | b)//a", "(a | b)/descendant-or-self::node()/child::a"}, {"reverse(a)//b", "reverse(a)/descendant-or-self::node()/child::b"}, {"a  /  b", "a/b"}, {" a [ 1 ] ", "a[1]"}, {"count( a )", "count(a)"}} {
 		in := metaInst(p[0], "equiv", dcfg)
 		in.Params["expr2"] = p[1]
 		in.ID = "equiv: " + p[0] + " == " + p[1]
